@@ -108,5 +108,8 @@ func TestCheck(t *testing.T) {
 	if os.Getenv("C17_ONLY") != "auth" {
 		inFlight.Store("share chains")
 		runShare(res, maxLenShare, maxLenOther, spellShare, spellOther)
+		if i, _ := vk.Shard(); i == 0 {
+			runShareRestarted(res)
+		}
 	}
 }
